@@ -268,6 +268,24 @@ def gen_cases(rng, tier):
                         b = opd(rng, 'Vector3', sb, [3], (), 'float') if rng.random() < 0.6 else opd(rng, 'Matrix', sb, [3, 2], (), 'float')
                         add(fin({'op': 'rotinv', 'axes': axes, 'ai': ai, 'aj': aj, 'ak': ak, 'b': b, 'rev': rng.random() < 0.5, 'noreq': True}))
 
+        # ---------------------------------------------------------------- from_matrix3 on exact and Euler-built rotations
+        for sh in SHAPES1:
+            R = signed_perm(rng, sh); R['mask'] = rand_mask(rng, sh)
+            add(fin({'op': 'm2q', 'a': R, 'mode': 'q', 'edge': True}))
+            I = {'cls': 'Matrix3', 'shape': list(sh), 'numer': [3, 3], 'denom': [], 'vals': [1., 0, 0, 0, 1., 0, 0, 0, 1.] * size(sh),
+                 'mask': rand_mask(rng, sh)}
+            add(fin({'op': 'm2q', 'a': I, 'mode': 'q', 'edge': True}))
+            for edge in (False, True):
+                add(fin({'op': 'm2q', 'a': euler_matrix(rng, sh, edge), 'mode': 'q', 'edge': edge}))
+        # ---------------------------------------------------------------- to_euler, all 24 conventions
+        for axes in AXES:
+            sh = rng.choice(SHAPES1)
+            add(fin({'op': 'toeuler', 'axes': axes, 'a': dict(signed_perm(rng, sh), mask=rand_mask(rng, sh)), 'mode': 'q', 'edge': True}))
+            for edge in (False, True):
+                sh = rng.choice(SHAPES1)
+                add(fin({'op': 'toeuler', 'axes': axes, 'a': euler_matrix(rng, sh, edge), 'mode': 'q', 'edge': edge}))
+            add(fin({'op': 'toeuler', 'axes': axes, 'a': dict(euler_matrix(rng, [], False), mask='F'), 'mode': 'q'}))
+
         # ---------------------------------------------------------------- inverse
         for sh in SHAPES1:
             for n in (1, 2, 3, 4):
@@ -311,6 +329,17 @@ def signed_perm(rng, shape):
                 break
         vals += [float(x) for x in m.ravel()]
     return {'cls': 'Matrix3', 'shape': list(shape), 'numer': [3, 3], 'denom': [], 'vals': vals, 'mask': 'F'}
+
+
+def euler_matrix(rng, shape, edge):
+    """rotation matrices computed here from random / edge angles with the textbook axis rotations"""
+    from c16_ref import euler_ref
+    vals = []
+    for _ in range(size(shape)):
+        a = [rng.choice(EDGE_ANGLES) if (edge or rng.random() < 0.25) else round(rng.uniform(-7, 7), 3) for _ in range(3)]
+        m = euler_ref(rng.choice(AXES), *a)
+        vals += [float(x) for x in np.asarray(m).ravel()]
+    return {'cls': 'Matrix3', 'shape': list(shape), 'numer': [3, 3], 'denom': [], 'vals': vals, 'mask': rand_mask(rng, list(shape))}
 
 
 def inv_operand(rng, shape, n, singular=True):
